@@ -87,6 +87,7 @@ type Exec struct {
 	local     *localCtx
 	ifc       *ifcCtx
 	race      *raceTracker
+	late      map[*ssa.Function]*lateInfo
 	noIfConv  bool
 	sumCache  map[*ssa.Function]bool
 
